@@ -1,5 +1,1402 @@
-(* Proofs/Caps.v — under construction *)
+(* Proofs/Caps.v — C16: resource caps and name/type discipline as an inductive
+   invariant of the interpreter state.
+
+   [caps_inv] says: at most STACK_LIMIT frames and STACK_LIMIT open FOR loops,
+   no two loops for the same variable, every array has exactly
+   product-of-dimensions cells and at most MAX_DIM_TOTAL_ELEMENTS of them, and
+   every stored binding (variable, array cell, function parameter) has the type
+   its name announces ('$' = string).  It holds initially, is preserved by
+   every primitive, by both evaluators whatever their outcome (Ok, Err, Panic,
+   OutOfFuel, OracleMiss), by every host operation, and therefore in every
+   reachable state.  The cap errors are characterised exactly at the primitive
+   level, and [start_loop] is shown not to accumulate loops. *)
 From Coq Require Import List NArith ZArith Bool Lia.
 From Abasic Require Import Model.Bytes Model.Num Model.Token Model.Data Model.Lexer Gen.Tables
-     Model.State Model.Eval Model.Interp Proofs.Monad Proofs.Frames.
+     Model.State Model.Eval Model.Interp Proofs.Monad Proofs.Frames Proofs.StoreProofs.
 Import ListNotations.
+Local Open Scope nat_scope.
+
+(* ------------------------------------------------------------------ *)
+(* The invariant *)
+
+Definition typed_alist (l : list (bytes * value)) : Prop :=
+  forall k v, In (k, v) l -> type_matches k v = true.
+
+Definition cell_typed (str : bool) (v : value) : Prop :=
+  match v with VStr _ => str = true | VNum _ => str = false end.
+
+Definition arr_ok (name : bytes) (a : arr) : Prop :=
+  ar_dims a <> []
+  /\ N.of_nat (length (ar_cells a)) = fold_right N.mul 1%N (ar_dims a)
+  /\ (N.of_nat (length (ar_cells a)) <= MAX_DIM_TOTAL_ELEMENTS)%N
+  /\ ar_str a = ends_with_dollar name
+  /\ Forall (cell_typed (ar_str a)) (ar_cells a).
+
+Definition arrays_ok (l : list (bytes * arr)) : Prop :=
+  forall name a, In (name, a) l -> arr_ok name a.
+
+Definition caps_inv (s : interp) : Prop :=
+  length (stack s) <= stack_limit
+  /\ length (loops s) <= stack_limit
+  /\ NoDup (map lp_sym (loops s))
+  /\ typed_alist (variables s)
+  /\ Forall (fun fr => typed_alist (fr_vars fr)) (stack s)
+  /\ arrays_ok (arrays s).
+
+(* ------------------------------------------------------------------ *)
+(* List facts *)
+
+Lemma alist_set_In {V} k0 (v0 : V) l k v :
+  In (k, v) (alist_set k0 v0 l) -> (k, v) = (k0, v0) \/ In (k, v) l.
+Proof.
+  induction l as [|[k' v'] l IH]; cbn [alist_set].
+  - intros [H|[]]; left; symmetry; exact H.
+  - destruct (bytes_eqb k0 k'); cbn [In].
+    + intros [H|H]; [left; symmetry; exact H | right; right; exact H].
+    + intros [H|H]; [right; left; exact H|].
+      destruct (IH H) as [H'|H']; [left|right; right]; assumption.
+Qed.
+
+Lemma alist_get_In {V} k (l : list (bytes * V)) v : alist_get k l = Some v -> In (k, v) l.
+Proof.
+  induction l as [|[k' v'] l IH]; cbn [alist_get]; [discriminate|].
+  destruct (bytes_eqb k k') eqn:E.
+  - intros H; inversion H; subst. apply bytes_eqb_eq in E; subst. left; reflexivity.
+  - intros H; right; apply IH; exact H.
+Qed.
+
+Lemma typed_alist_nil : typed_alist [].
+Proof. intros k v []. Qed.
+
+Lemma typed_alist_set k v l :
+  typed_alist l -> type_matches k v = true -> typed_alist (alist_set k v l).
+Proof.
+  intros Hl Hkv k' v' Hin. apply alist_set_In in Hin. destruct Hin as [E|Hin].
+  - inversion E; subst; exact Hkv.
+  - apply Hl; exact Hin.
+Qed.
+
+Lemma arrays_ok_nil : arrays_ok [].
+Proof. intros k v []. Qed.
+
+Lemma arrays_ok_set name a l : arrays_ok l -> arr_ok name a -> arrays_ok (alist_set name a l).
+Proof.
+  intros Hl Ha n x Hin. apply alist_set_In in Hin. destruct Hin as [E|Hin].
+  - inversion E; subst; exact Ha.
+  - apply Hl; exact Hin.
+Qed.
+
+Lemma list_update_length {A} (l : list A) i v : length (list_update l i v) = length l.
+Proof.
+  revert i; induction l as [|x l IH]; intros [|i]; cbn [list_update length]; try reflexivity.
+  rewrite IH; reflexivity.
+Qed.
+
+Lemma list_update_Forall {A} (P : A -> Prop) l i v :
+  Forall P l -> P v -> Forall P (list_update l i v).
+Proof.
+  intros Hl Hv. revert i; induction Hl as [|x l Hx Hl IH]; intros [|i]; cbn [list_update];
+    constructor; auto.
+Qed.
+
+Lemma firstn_incl {A} n (l : list A) x : In x (firstn n l) -> In x l.
+Proof.
+  revert n; induction l as [|y l IH]; intros [|n]; cbn [firstn In]; try tauto.
+  intros [H|H]; [left; exact H | right; eapply IH; exact H].
+Qed.
+
+Lemma firstn_NoDup {A} n (l : list A) : NoDup l -> NoDup (firstn n l).
+Proof.
+  intros H; revert n; induction H as [|x l Hx Hl IH]; intros [|n]; cbn [firstn]; try constructor.
+  - intros Hin; apply Hx; eapply firstn_incl; exact Hin.
+  - apply IH.
+Qed.
+
+Lemma firstn_S_nth {A} (l : list A) i x :
+  nth_error l i = Some x -> firstn (S i) l = firstn i l ++ [x].
+Proof.
+  revert i; induction l as [|y l IH]; intros [|i]; cbn [nth_error]; try discriminate.
+  - intros H; inversion H; subst; reflexivity.
+  - intros H. change (firstn (S (S i)) (y :: l)) with (y :: firstn (S i) l).
+    rewrite (IH _ H). reflexivity.
+Qed.
+
+Lemma NoDup_snoc {A} (l : list A) x : NoDup l -> ~ In x l -> NoDup (l ++ [x]).
+Proof.
+  induction 1 as [|y l Hy Hl IH]; intros Hx; cbn [app].
+  - constructor; [intros []|constructor].
+  - constructor.
+    + intros Hin. apply in_app_or in Hin. destruct Hin as [Hin|[E|[]]]; [exact (Hy Hin)|].
+      apply Hx; left; symmetry; exact E.
+    + apply IH. intros Hin; apply Hx; right; exact Hin.
+Qed.
+
+Lemma rev_cons_inv {A} (l : list A) x r : rev l = x :: r -> l = rev r ++ [x].
+Proof. intros H. rewrite <- (rev_involutive l), H. reflexivity. Qed.
+
+(* ------------------------------------------------------------------ *)
+(* FOR-loop bookkeeping: [find_loop_rev] and what [remove_loop_with_name] keeps *)
+
+Lemma find_loop_rev_Some sym ls i : find_loop_rev sym ls = Some i ->
+  exists x, nth_error ls i = Some x /\ lp_sym x = sym.
+Proof.
+  revert i; induction ls as [|y r IH]; intros i; cbn [find_loop_rev]; [discriminate|].
+  destruct (find_loop_rev sym r) as [j|].
+  - intros H; inversion H; subst. cbn [nth_error]. apply IH; reflexivity.
+  - destruct (bytes_eqb (lp_sym y) sym) eqn:E; [|discriminate].
+    intros H; inversion H; subst. exists y; split; [reflexivity|apply bytes_eqb_eq; exact E].
+Qed.
+
+Lemma find_loop_rev_None sym ls : find_loop_rev sym ls = None -> ~ In sym (map lp_sym ls).
+Proof.
+  induction ls as [|y r IH]; cbn [find_loop_rev map In]; [tauto|].
+  destruct (find_loop_rev sym r) as [j|]; [discriminate|].
+  destruct (bytes_eqb (lp_sym y) sym) eqn:E; [discriminate|].
+  intros _ [H|H]; [|apply IH; auto]. apply bytes_eqb_eq in H. congruence.
+Qed.
+
+(* with distinct loop variables, nothing below position [i] has the symbol at [i] *)
+Lemma NoDup_below_nth ls i x :
+  NoDup (map lp_sym ls) -> nth_error ls i = Some x ->
+  ~ In (lp_sym x) (map lp_sym (firstn i ls)).
+Proof.
+  revert i; induction ls as [|y r IH]; intros [|i] Hnd Hn; cbn [nth_error firstn map In] in *;
+    try discriminate; try tauto.
+  inversion Hnd as [|? ? Hy Hr]; subst. intros [H|H].
+  - apply Hy. rewrite H. apply in_map. eapply nth_error_In; exact Hn.
+  - exact (IH i Hr Hn H).
+Qed.
+
+(* the loops that survive [remove_loop_with_name sym] *)
+Definition loops_below (sym : bytes) (ls : list loop_info) : list loop_info :=
+  match find_loop_rev sym ls with Some i => firstn i ls | None => ls end.
+
+Lemma loops_below_length sym ls : length (loops_below sym ls) <= length ls.
+Proof.
+  unfold loops_below. destruct (find_loop_rev sym ls); [|lia].
+  rewrite firstn_length. lia.
+Qed.
+
+Lemma loops_below_length_lt sym ls :
+  In sym (map lp_sym ls) -> length (loops_below sym ls) < length ls.
+Proof.
+  unfold loops_below. intros Hin. destruct (find_loop_rev sym ls) as [i|] eqn:E.
+  - destruct (find_loop_rev_Some _ _ _ E) as (x & Hx & _).
+    assert (i < length ls) by (apply nth_error_Some; congruence).
+    rewrite firstn_length. lia.
+  - exfalso. exact (find_loop_rev_None _ _ E Hin).
+Qed.
+
+Lemma loops_below_NoDup sym ls : NoDup (map lp_sym ls) -> NoDup (map lp_sym (loops_below sym ls)).
+Proof.
+  unfold loops_below. intros H. destruct (find_loop_rev sym ls); [|exact H].
+  rewrite <- firstn_map. apply firstn_NoDup; exact H.
+Qed.
+
+Lemma loops_below_fresh sym ls :
+  NoDup (map lp_sym ls) -> ~ In sym (map lp_sym (loops_below sym ls)).
+Proof.
+  unfold loops_below. intros H. destruct (find_loop_rev sym ls) as [i|] eqn:E.
+  - destruct (find_loop_rev_Some _ _ _ E) as (x & Hx & Hs). subst sym.
+    apply NoDup_below_nth; assumption.
+  - apply find_loop_rev_None; exact E.
+Qed.
+
+(* the state after [remove_loop_with_name sym] *)
+Definition drop_loop (sym : bytes) (s : interp) : interp :=
+  match find_loop_rev sym (loops s) with
+  | Some i => set_loops (firstn i (loops s)) s
+  | None => s
+  end.
+
+Lemma drop_loop_loops sym s : loops (drop_loop sym s) = loops_below sym (loops s).
+Proof. unfold drop_loop, loops_below. destruct (find_loop_rev sym (loops s)); reflexivity. Qed.
+
+Lemma remove_loop_eq sym s :
+  remove_loop_with_name sym s =
+  (Ok (match find_loop_rev sym (loops s) with Some i => nth_error (loops s) i | None => None end),
+   drop_loop sym s).
+Proof.
+  unfold remove_loop_with_name, drop_loop. rewrite bind_get.
+  destruct (find_loop_rev sym (loops s)); reflexivity.
+Qed.
+
+Lemma variables_set_eq name v s :
+  variables_set name v s =
+  if type_matches name v then (Ok tt, set_variables (alist_set name v (variables s)) s)
+  else (Err ETypeMismatch None, s).
+Proof. unfold variables_set. destruct (type_matches name v); reflexivity. Qed.
+
+Lemma start_loop_eq sym a b c s :
+  start_loop sym a b c s =
+  let s1 := drop_loop sym s in
+  if Nat.eqb (length (loops s1)) stack_limit then (Err EStackOverflow None, s1)
+  else variables_set sym (VNum a) (set_loops (loops s1 ++ [mkloop (loc s1) sym b c]) s1).
+Proof.
+  unfold start_loop. unfold bind at 1. rewrite remove_loop_eq. cbv zeta.
+  rewrite bind_get. destruct (Nat.eqb (length (loops (drop_loop sym s))) stack_limit); [reflexivity|].
+  rewrite bind_get, bind_modify. reflexivity.
+Qed.
+
+(* ------------------------------------------------------------------ *)
+(* Initial states *)
+
+Theorem caps_init : caps_inv init_interp.
+Proof.
+  unfold caps_inv, init_interp; cbn [stack loops variables arrays length map].
+  split; [apply Nat.le_0_l|]. split; [apply Nat.le_0_l|]. split; [constructor|].
+  split; [apply typed_alist_nil|]. split; [constructor|apply arrays_ok_nil].
+Qed.
+
+Theorem caps_fresh oracle : caps_inv (fresh oracle).
+Proof. exact caps_init. Qed.
+
+(* ------------------------------------------------------------------ *)
+(* The invariant reads four fields only *)
+
+Lemma caps_inv_ext s s' :
+  stack s' = stack s -> loops s' = loops s -> variables s' = variables s -> arrays s' = arrays s ->
+  caps_inv s -> caps_inv s'.
+Proof. unfold caps_inv. intros -> -> -> ->. exact (fun H => H). Qed.
+
+Ltac caps_fields :=
+  cbn [stack loops variables arrays
+       set_store set_immediate set_loc set_breakpoint set_stack set_loops set_data_it
+       set_functions set_input set_outputs set_state set_rng set_variables set_arrays
+       set_flags set_oracle set_reads].
+
+Lemma caps_set_stack v s :
+  caps_inv s -> length v <= stack_limit -> Forall (fun fr => typed_alist (fr_vars fr)) v ->
+  caps_inv (set_stack v s).
+Proof. intros (_ & Hlp & Hnd & Hvs & _ & Har) Hl Hf. unfold caps_inv; caps_fields. tauto. Qed.
+
+Lemma caps_set_loops v s :
+  caps_inv s -> length v <= stack_limit -> NoDup (map lp_sym v) -> caps_inv (set_loops v s).
+Proof. intros (Hst & _ & _ & Hvs & Hfr & Har) Hl Hn. unfold caps_inv; caps_fields. tauto. Qed.
+
+Lemma caps_set_variables v s : caps_inv s -> typed_alist v -> caps_inv (set_variables v s).
+Proof. intros (Hst & Hlp & Hnd & _ & Hfr & Har) Hv. unfold caps_inv; caps_fields. tauto. Qed.
+
+Lemma caps_set_arrays v s : caps_inv s -> arrays_ok v -> caps_inv (set_arrays v s).
+Proof. intros (Hst & Hlp & Hnd & Hvs & Hfr & _) Hv. unfold caps_inv; caps_fields. tauto. Qed.
+
+Lemma caps_store_set n ts s : caps_inv s -> caps_inv (store_set n ts s).
+Proof.
+  intros H. unfold store_set. destruct ts; (eapply caps_inv_ext; [..|exact H]; reflexivity).
+Qed.
+
+(* a field emptied, the rest unchanged *)
+Ltac caps_nil :=
+  match goal with
+  | H : caps_inv ?s |- caps_inv _ =>
+      let Hst := fresh in let Hlp := fresh in let Hnd := fresh in
+      let Hvs := fresh in let Hfr := fresh in let Har := fresh in
+      destruct H as (Hst & Hlp & Hnd & Hvs & Hfr & Har);
+      unfold caps_inv; caps_fields;
+      (split; [|split; [|split; [|split; [|split]]]]);
+      first [ assumption | apply Nat.le_0_l | apply NoDup_nil | apply Forall_nil
+            | apply typed_alist_nil | apply arrays_ok_nil ]
+  end.
+
+(* the generic [modify] leaf: setters that leave the four fields alone, or empty one *)
+Ltac caps_modify :=
+  apply (mrel_modify (inv_rel caps_inv)); unfold inv_rel; intros ?s ?Hinv; cbv beta zeta;
+  repeat match goal with |- context [match ?x with _ => _ end] => destruct x end;
+  solve [ eassumption
+        | eapply caps_inv_ext; [reflexivity|reflexivity|reflexivity|reflexivity|eassumption]
+        | apply caps_store_set; eassumption
+        | caps_nil ].
+
+Lemma bind_ret {A B} (a : A) (K : A -> M B) s : bind (ret a) K s = K a s.
+Proof. reflexivity. Qed.
+
+(* value postconditions, for binds whose continuation needs a fact about the value *)
+Definition mpost {A} (Q : A -> Prop) (m : M A) : Prop :=
+  forall s a s', m s = (Ok a, s') -> Q a.
+
+Lemma mpost_ret {A} (Q : A -> Prop) a : Q a -> mpost Q (ret a).
+Proof. intros H s x s' E. inversion E; subst; exact H. Qed.
+
+Lemma mpost_bind {A B} (Q : B -> Prop) (m : M A) (f : A -> M B) :
+  (forall a, mpost Q (f a)) -> mpost Q (bind m f).
+Proof.
+  intros H s b s' E. unfold bind in E.
+  destruct (m s) as [[a| | | |] s1]; try discriminate. eapply H; exact E.
+Qed.
+
+Lemma mpost_fail_bind {A B} (Q : B -> Prop) e (f : A -> M B) : mpost Q (bind (fail e) f).
+Proof. intros s b s' E. discriminate E. Qed.
+
+Lemma mrel_bind_post {A B} R (PO : preorder R) (Q : A -> Prop) (m : M A) (f : A -> M B) :
+  mrel R m -> mpost Q m -> (forall a, Q a -> mrel R (f a)) -> mrel R (bind m f).
+Proof.
+  intros Hm HQ Hf s. unfold bind. specialize (Hm s). specialize (HQ s).
+  destruct (m s) as [[a| | | |] s']; cbn [snd] in *; try exact Hm.
+  eapply (po_trans _ PO); [exact Hm | apply Hf; eapply HQ; reflexivity].
+Qed.
+
+(* ------------------------------------------------------------------ *)
+(* Arrays: DimArray::new *)
+
+Definition dims_product (l : list N) : N := fold_right N.mul 1%N l.
+
+Lemma dims_product_pos l : Forall (fun d => (1 <= d)%N) l -> (1 <= dims_product l)%N.
+Proof.
+  induction 1 as [|d l Hd Hl IH]; cbn [dims_product fold_right]; [lia|].
+  fold (dims_product l). nia.
+Qed.
+
+Lemma dims_product_ge d l : Forall (fun d => (1 <= d)%N) l -> In d l -> (d <= dims_product l)%N.
+Proof.
+  induction 1 as [|x l Hx Hl IH]; cbn [In dims_product fold_right]; [tauto|].
+  fold (dims_product l). pose proof (dims_product_pos l Hl) as Hp.
+  intros [->|Hin]; [nia|]. specialize (IH Hin). nia.
+Qed.
+
+Lemma checked_product_spec l : Forall (fun d => (1 <= d)%N) l -> forall acc,
+  match checked_product l acc with
+  | Some t => t = (acc * dims_product l)%N
+  | None => (USIZE_MAX < acc * dims_product l)%N
+  end.
+Proof.
+  induction 1 as [|d l Hd Hl IH]; intros acc; cbn [checked_product dims_product fold_right].
+  - lia.
+  - fold (dims_product l). pose proof (dims_product_pos l Hl) as Hp.
+    destruct (N.ltb_spec USIZE_MAX (acc * d)) as [Hlt|Hge].
+    + nia.
+    + specialize (IH (acc * d)%N). destruct (checked_product l (acc * d)); nia.
+Qed.
+
+Lemma dim_sizes_pos idx : Forall (fun d => (1 <= d)%N) (dim_sizes idx).
+Proof. unfold dim_sizes. apply Forall_forall. intros d Hd. apply in_map_iff in Hd. destruct Hd as (m & <- & _). lia. Qed.
+
+Lemma max_dim_le_usize : (MAX_DIM_TOTAL_ELEMENTS <= USIZE_MAX)%N.
+Proof. apply N.leb_le. vm_compute. reflexivity. Qed.
+
+(* Item 4 (arrays): the ARRAY TOO LARGE error is raised exactly when the true
+   (unbounded) product of the dimension sizes exceeds the cap; otherwise the
+   array is well-formed. *)
+Theorem array_create_value_spec name idx : idx <> [] ->
+  if (MAX_DIM_TOTAL_ELEMENTS <? dims_product (dim_sizes idx))%N
+  then array_create_value name idx = Err EArrayTooLarge None
+  else exists a, array_create_value name idx = Ok a /\ arr_ok name a /\ ar_dims a = dim_sizes idx.
+Proof.
+  intros Hne. pose proof (dim_sizes_pos idx) as Hpos. pose proof max_dim_le_usize as Hmax.
+  unfold array_create_value. destruct idx as [|i0 idx']; [congruence|]. clear Hne.
+  set (idx := i0 :: idx') in *.
+  destruct (existsb (fun m => (USIZE_MAX <? m + 1)%N) idx) eqn:Eex.
+  - apply existsb_exists in Eex. destruct Eex as (m & Hin & Hm). apply N.ltb_lt in Hm.
+    assert (Hge : (m + 1 <= dims_product (dim_sizes idx))%N).
+    { apply dims_product_ge; [exact Hpos|]. unfold dim_sizes. apply in_map_iff. exists m; auto. }
+    destruct (N.ltb_spec MAX_DIM_TOTAL_ELEMENTS (dims_product (dim_sizes idx))); [reflexivity|lia].
+  - pose proof (checked_product_spec _ Hpos 1%N) as Hcp.
+    destruct (checked_product (dim_sizes idx) 1) as [t|].
+    + rewrite N.mul_1_l in Hcp. subst t. unfold max_dim_total.
+      destruct (N.ltb_spec MAX_DIM_TOTAL_ELEMENTS (dims_product (dim_sizes idx))) as [Hlt|Hle];
+        [reflexivity|].
+      eexists; split; [reflexivity|]. split; [|reflexivity].
+      unfold arr_ok; cbn [ar_dims ar_cells ar_str]. rewrite repeat_length, N2Nat.id.
+      split; [subst idx; discriminate|]. split; [reflexivity|]. split; [exact Hle|].
+      split; [reflexivity|]. apply Forall_forall. intros x Hx. apply repeat_spec in Hx. subst x.
+      destruct (ends_with_dollar name); reflexivity.
+    + rewrite N.mul_1_l in Hcp.
+      destruct (N.ltb_spec MAX_DIM_TOTAL_ELEMENTS (dims_product (dim_sizes idx))); [reflexivity|lia].
+Qed.
+
+Lemma array_create_value_ok name idx a : array_create_value name idx = Ok a -> arr_ok name a.
+Proof.
+  intros E. destruct idx as [|i0 idx'] eqn:Ei; [discriminate E|]. rewrite <- Ei in *.
+  assert (Hne : idx <> []) by (subst; discriminate).
+  pose proof (array_create_value_spec name idx Hne) as H.
+  destruct (MAX_DIM_TOTAL_ELEMENTS <? dims_product (dim_sizes idx))%N.
+  - rewrite H in E; discriminate.
+  - destruct H as (a' & Ha & Hok & _). congruence.
+Qed.
+
+(* ------------------------------------------------------------------ *)
+(* Preservation *)
+
+Section Preservation.
+  Let PO := inv_rel_preorder caps_inv.
+
+  Notation INV := (inv_rel caps_inv).
+
+  (* the walker of Monad.v with a syntactic fast path: the generic rules are
+     tried by unification only on heads that are not already a monad
+     combinator *)
+  Ltac cstep leaf :=
+    lazymatch goal with
+    | |- mrel _ (bind _ _) => apply (mrel_bind _ PO); [|intro]
+    | |- mrel _ (ret _) => apply (mrel_ret _ PO)
+    | |- mrel _ (fail _) => apply (mrel_fail _ PO)
+    | |- mrel _ (fail_at _ _) => apply (mrel_fail_at _ PO)
+    | |- mrel _ (panic _) => apply (mrel_panic _ PO)
+    | |- mrel _ out_of_fuel => apply (mrel_out_of_fuel _ PO)
+    | |- mrel _ oracle_miss => apply (mrel_oracle_miss _ PO)
+    | |- mrel _ (get _) => apply (mrel_get _ PO)
+    | |- mrel _ (lift_res _) => apply (mrel_lift_res _ PO)
+    | |- mrel _ (repeat_m _ _ _) => apply (mrel_repeat _ PO); intro
+    | |- mrel _ (match ?x with _ => _ end) => destruct x
+    | |- mrel _ _ => first [ solve [leaf] | mrel_step PO leaf ]
+    end.
+  Ltac cwalk leaf := repeat (cstep leaf).
+  Ltac head_of t := lazymatch t with ?f _ => head_of f | _ => t end.
+  Ltac unfold_head := lazymatch goal with |- mrel _ ?m => let h := head_of m in unfold h end.
+  Ltac uwalk leaf := unfold_head; cwalk leaf.
+
+  (* ---- token cursor: never touches the four fields ---- *)
+
+  Lemma caps_tokens_for_line l : mrel INV (tokens_for_line l).
+  Proof.
+    intros s; unfold tokens_for_line, inv_rel. destruct l as [n|]; [|exact (fun H => H)].
+    destruct (toks_get n (st_toks s)); exact (fun H => H).
+  Qed.
+
+  Ltac leaf0 :=
+    first [ lazymatch goal with
+            | |- mrel _ (tokens_for_line _) => apply caps_tokens_for_line
+            | |- mrel _ (modify _) => caps_modify
+            | |- mrel _ advance => caps_modify
+            end
+          | assumption
+          | match goal with H : forall _, mrel _ _ |- _ => apply H end ].
+
+  Lemma caps_cur_tokens : mrel INV cur_tokens. Proof. uwalk leaf0. Qed.
+
+  Ltac leaf1 :=
+    first [ lazymatch goal with |- mrel _ cur_tokens => apply caps_cur_tokens end | leaf0 ].
+
+  Lemma caps_peek : mrel INV peek_next_token. Proof. uwalk leaf1. Qed.
+
+  Ltac leaf2 :=
+    first [ lazymatch goal with |- mrel _ peek_next_token => apply caps_peek end | leaf1 ].
+
+  Lemma caps_has_next : mrel INV has_next_token. Proof. uwalk leaf2. Qed.
+  Lemma caps_next_token : mrel INV next_token. Proof. uwalk leaf2. Qed.
+  Lemma caps_accept t : mrel INV (accept_next_token t). Proof. uwalk leaf2. Qed.
+  Lemma caps_peek_is t : mrel INV (peek_is t). Proof. uwalk leaf2. Qed.
+  Lemma caps_try {B} (g : token -> option B) : mrel INV (try_next_token g). Proof. uwalk leaf2. Qed.
+  Lemma caps_discard : mrel INV discard_remaining_tokens. Proof. uwalk leaf2. Qed.
+
+  Ltac leaf3 :=
+    first [ lazymatch goal with
+            | |- mrel _ has_next_token => apply caps_has_next
+            | |- mrel _ next_token => apply caps_next_token
+            | |- mrel _ (accept_next_token _) => apply caps_accept
+            | |- mrel _ (peek_is _) => apply caps_peek_is
+            | |- mrel _ (try_next_token _) => apply caps_try
+            | |- mrel _ discard_remaining_tokens => apply caps_discard
+            end
+          | leaf2 ].
+
+  Lemma caps_next_unwrapped : mrel INV next_unwrapped_token. Proof. uwalk leaf3. Qed.
+
+  Lemma caps_expect t : mrel INV (expect_next_token t).
+  Proof.
+    unfold_head; cwalk ltac:(first [ lazymatch goal with
+                               | |- mrel _ next_unwrapped_token => apply caps_next_unwrapped end
+                             | leaf3 ]).
+  Qed.
+
+  Lemma caps_rewind_loop i t : mrel INV (rewind_loop i t).
+  Proof. induction i as [|i IH]; cbn [rewind_loop]; cwalk leaf3. Qed.
+
+  Lemma caps_rewind t : mrel INV (rewind_before_token t).
+  Proof.
+    unfold rewind_before_token.
+    apply (mrel_bind _ PO); [apply (mrel_get _ PO)|intros l; apply caps_rewind_loop].
+  Qed.
+
+  Ltac leaf4 :=
+    first [ lazymatch goal with
+            | |- mrel _ next_unwrapped_token => apply caps_next_unwrapped
+            | |- mrel _ (expect_next_token _) => apply caps_expect
+            | |- mrel _ (rewind_before_token _) => apply caps_rewind
+            end
+          | leaf3 ].
+
+  (* ---- program control ---- *)
+
+  Lemma caps_get_line_number : mrel INV get_line_number. Proof. uwalk leaf4. Qed.
+  Lemma caps_set_imm ts : mrel INV (set_and_goto_immediate_line ts). Proof. caps_modify. Qed.
+
+  Lemma caps_drop_loop sym s : caps_inv s -> caps_inv (drop_loop sym s).
+  Proof.
+    intros Hinv. pose proof Hinv as (_ & Hlp & Hnd & _).
+    unfold drop_loop. destruct (find_loop_rev sym (loops s)) as [i|] eqn:E; [|exact Hinv].
+    apply caps_set_loops; [exact Hinv| |].
+    - rewrite firstn_length. lia.
+    - rewrite <- firstn_map. apply firstn_NoDup; exact Hnd.
+  Qed.
+
+  Lemma caps_remove_loop sym : mrel INV (remove_loop_with_name sym).
+  Proof. intros s Hinv. rewrite remove_loop_eq. apply caps_drop_loop; exact Hinv. Qed.
+
+  Lemma caps_variables_set n v : mrel INV (variables_set n v).
+  Proof.
+    intros s Hinv. rewrite variables_set_eq. destruct (type_matches n v) eqn:E; [|exact Hinv].
+    apply caps_set_variables; [exact Hinv|]. apply typed_alist_set; [apply Hinv|exact E].
+  Qed.
+
+  Lemma caps_variables_get n : mrel INV (variables_get n). Proof. uwalk leaf4. Qed.
+
+  Lemma caps_start_loop sym a b c : mrel INV (start_loop sym a b c).
+  Proof.
+    intros s Hinv. rewrite start_loop_eq. cbv zeta.
+    pose proof (caps_drop_loop sym s Hinv) as H1.
+    destruct (Nat.eqb (length (loops (drop_loop sym s))) stack_limit) eqn:E; [exact H1|].
+    apply caps_variables_set. apply Nat.eqb_neq in E.
+    pose proof H1 as (_ & Hlp & _).
+    apply caps_set_loops; [exact H1| |].
+    - rewrite app_length; cbn [length]. lia.
+    - rewrite map_app; cbn [map lp_sym]. rewrite drop_loop_loops.
+      destruct Hinv as (_ & _ & Hnd & _).
+      apply NoDup_snoc; [apply loops_below_NoDup; exact Hnd | apply loops_below_fresh; exact Hnd].
+  Qed.
+
+  Lemma caps_end_loop sym : mrel INV (end_loop sym).
+  Proof.
+    unfold end_loop. apply (mrel_bind _ PO); [apply caps_variables_get|intros cur].
+    destruct cur as [str|x]; [apply (mrel_fail _ PO)|].
+    intros s Hinv. unfold bind at 1. rewrite remove_loop_eq. cbv beta iota zeta.
+    pose proof (caps_drop_loop sym s Hinv) as H1.
+    destruct (find_loop_rev sym (loops s)) as [i|] eqn:E; [|exact H1].
+    destruct (nth_error (loops s) i) as [li|] eqn:En; [|exact H1].
+    destruct (negb (bytes_eqb (lp_sym li) sym)); [exact H1|].
+    match goal with |- context [bind (if ?c then _ else _) _] => destruct c end.
+    - rewrite bind_modify. apply caps_variables_set.
+      unfold drop_loop. rewrite E. caps_fields.
+      destruct Hinv as (Hst & Hlp & Hnd & Hvs & Hfr & Har).
+      rewrite <- (firstn_S_nth _ _ _ En).
+      unfold caps_inv; caps_fields.
+      split; [exact Hst|]. split; [rewrite firstn_length; lia|].
+      split; [rewrite <- firstn_map; apply firstn_NoDup; exact Hnd|]. tauto.
+    - rewrite bind_ret. apply caps_variables_set. exact H1.
+  Qed.
+
+  Lemma caps_reset_data : mrel INV reset_data_cursor. Proof. caps_modify. Qed.
+  Lemma caps_program_end : mrel INV program_end. Proof. apply caps_set_imm. Qed.
+
+  Ltac leaf5 :=
+    first [ lazymatch goal with
+            | |- mrel _ get_line_number => apply caps_get_line_number
+            | |- mrel _ (set_and_goto_immediate_line _) => apply caps_set_imm
+            | |- mrel _ (remove_loop_with_name _) => apply caps_remove_loop
+            | |- mrel _ (variables_set _ _) => apply caps_variables_set
+            | |- mrel _ (variables_get _) => apply caps_variables_get
+            | |- mrel _ (start_loop _ _ _ _) => apply caps_start_loop
+            | |- mrel _ (end_loop _) => apply caps_end_loop
+            | |- mrel _ reset_data_cursor => apply caps_reset_data
+            | |- mrel _ program_end => apply caps_program_end
+            end
+          | leaf4 ].
+
+  Lemma caps_program_break : mrel INV program_break_at_current_location.
+  Proof. uwalk leaf5. Qed.
+  Lemma caps_continue_bp : mrel INV continue_from_breakpoint.
+  Proof. uwalk leaf5. Qed.
+  Lemma caps_reset_runtime : mrel INV reset_runtime_state.
+  Proof. uwalk leaf5. Qed.
+  Lemma caps_run_from_first : mrel INV run_from_first_numbered_line.
+  Proof.
+    unfold_head; cwalk ltac:(first [ lazymatch goal with
+                               | |- mrel _ reset_runtime_state => apply caps_reset_runtime end
+                             | leaf5 ]).
+  Qed.
+  Lemma caps_goto n : mrel INV (goto_line_number n).
+  Proof. uwalk leaf5. Qed.
+  Lemma caps_define_function n a : mrel INV (define_function n a).
+  Proof. uwalk leaf5. Qed.
+  Lemma caps_find_var n : mrel INV (find_variable_value_in_stack n).
+  Proof. uwalk leaf5. Qed.
+  Lemma caps_next_line : mrel INV next_line.
+  Proof. uwalk leaf5. Qed.
+  Lemma caps_set_numbered_line n ts : mrel INV (set_numbered_line n ts).
+  Proof. uwalk leaf5. Qed.
+  Lemma caps_rng_rnd x : mrel INV (rng_rnd x).
+  Proof. uwalk leaf5. Qed.
+  Lemma caps_push_output o : mrel INV (push_output o).
+  Proof. caps_modify. Qed.
+
+  (* ---- the frame stack ---- *)
+
+  Lemma goto_eq n s :
+    goto_line_number n s =
+    if store_has n s then (Ok tt, set_loc (mkloc (Some n) 0) (set_breakpoint None s))
+    else (Err EUndefinedStatement None, set_breakpoint None s).
+  Proof.
+    unfold goto_line_number. rewrite bind_modify, bind_get.
+    change (store_has n (set_breakpoint None s)) with (store_has n s).
+    destruct (store_has n s); reflexivity.
+  Qed.
+
+  Lemma caps_push_frame fr s :
+    caps_inv s -> length (stack s) <> stack_limit -> typed_alist (fr_vars fr) ->
+    caps_inv (set_stack (stack s ++ [fr]) s).
+  Proof.
+    intros Hinv Hne Hfr. pose proof Hinv as (Hst & _ & _ & _ & Hfrs & _).
+    apply caps_set_stack; [exact Hinv| |].
+    - rewrite app_length; cbn [length]. lia.
+    - apply Forall_app; split; [exact Hfrs|]. constructor; [exact Hfr|constructor].
+  Qed.
+
+  Lemma caps_pop_frame fr rest s :
+    caps_inv s -> rev (stack s) = fr :: rest -> caps_inv (set_stack (rev rest) s).
+  Proof.
+    intros Hinv E. pose proof Hinv as (Hst & _ & _ & _ & Hfrs & _).
+    apply rev_cons_inv in E. rewrite E in Hst, Hfrs.
+    rewrite app_length in Hst; cbn [length] in Hst. apply Forall_app in Hfrs.
+    apply caps_set_stack; [exact Hinv|lia|apply Hfrs].
+  Qed.
+
+  Lemma caps_gosub n : mrel INV (gosub_line_number n).
+  Proof.
+    intros s Hinv. unfold gosub_line_number. rewrite bind_get.
+    destruct (Nat.eqb (length (stack s)) stack_limit) eqn:E; [exact Hinv|].
+    apply Nat.eqb_neq in E. rewrite bind_get. unfold bind. rewrite goto_eq.
+    destruct (store_has n s); cbn [snd modify].
+    - set (s1 := set_loc _ _).
+      assert (H1 : caps_inv s1) by (eapply caps_inv_ext; [..|exact Hinv]; reflexivity).
+      apply (caps_push_frame (mkframe (loc s) []) s1 H1); [exact E|apply typed_alist_nil].
+    - eapply caps_inv_ext; [..|exact Hinv]; reflexivity.
+  Qed.
+
+  Lemma caps_return : mrel INV return_to_last_gosub.
+  Proof.
+    intros s Hinv. unfold return_to_last_gosub. rewrite bind_modify, bind_get.
+    set (s1 := set_breakpoint None s).
+    assert (H1 : caps_inv s1) by (eapply caps_inv_ext; [..|exact Hinv]; reflexivity).
+    destruct (rev (stack s1)) as [|fr rest] eqn:E; [exact H1|].
+    cbn [modify snd]. pose proof (caps_pop_frame _ _ _ H1 E) as H2.
+    eapply caps_inv_ext; [..|exact H2]; reflexivity.
+  Qed.
+
+  Lemma caps_push_fn name b : typed_alist b -> mrel INV (push_function_call name b).
+  Proof.
+    intros Hb s Hinv. unfold push_function_call. rewrite bind_get.
+    destruct (Nat.eqb (length (stack s)) stack_limit) eqn:E; [exact Hinv|].
+    apply Nat.eqb_neq in E. rewrite bind_get, bind_modify, bind_get.
+    pose proof (caps_push_frame (mkframe (loc s) b) s Hinv E Hb) as H1.
+    destruct (alist_get name (functions (set_stack (stack s ++ [mkframe (loc s) b]) s)));
+      [|exact H1].
+    cbn [modify snd]. eapply caps_inv_ext; [..|exact H1]; reflexivity.
+  Qed.
+
+  Lemma caps_pop_fn : mrel INV pop_function_call.
+  Proof.
+    intros s Hinv. unfold pop_function_call. rewrite bind_get.
+    destruct (rev (stack s)) as [|fr rest] eqn:E; [exact Hinv|].
+    cbn [modify snd]. pose proof (caps_pop_frame _ _ _ Hinv E) as H2.
+    eapply caps_inv_ext; [..|exact H2]; reflexivity.
+  Qed.
+
+  (* ---- arrays ---- *)
+
+  Lemma caps_add_array name idx s a :
+    caps_inv s -> array_create_value name idx = Ok a ->
+    caps_inv (set_arrays (alist_set name a (arrays s)) s).
+  Proof.
+    intros Hinv E. apply caps_set_arrays; [exact Hinv|].
+    apply arrays_ok_set; [apply Hinv|eapply array_create_value_ok; exact E].
+  Qed.
+
+  Lemma caps_arrays_create name idx : mrel INV (arrays_create name idx).
+  Proof.
+    intros s Hinv. unfold arrays_create. rewrite bind_get.
+    destruct (alist_has name (arrays s)); [exact Hinv|].
+    unfold bind, lift_res.
+    destruct (array_create_value name idx) as [a|e l|p| |] eqn:E; try exact Hinv.
+    cbn [modify snd]. eapply caps_add_array; [exact Hinv|exact E].
+  Qed.
+
+  Lemma caps_maybe_default name d : mrel INV (maybe_create_default_array name d).
+  Proof.
+    intros s Hinv. unfold maybe_create_default_array. rewrite bind_get.
+    destruct (alist_has name (arrays s)); [exact Hinv|].
+    unfold bind, lift_res.
+    destruct (array_create_value name (repeat DEFAULT_ARRAY_SIZE d)) as [a|e l|p| |] eqn:E;
+      try exact Hinv.
+    cbn [modify snd]. eapply caps_add_array; [exact Hinv|exact E].
+  Qed.
+
+  Lemma caps_arrays_get name idx : mrel INV (arrays_get name idx).
+  Proof.
+    unfold arrays_get; cwalk ltac:(first [ lazymatch goal with
+                               | |- mrel _ (maybe_create_default_array _ _) => apply caps_maybe_default end
+                             | leaf5 ]).
+  Qed.
+
+  Lemma caps_arrays_set name idx v : mrel INV (arrays_set name idx v).
+  Proof.
+    intros s Hinv. unfold arrays_set.
+    destruct (type_matches name v) eqn:Etm; cbn [negb]; [|exact Hinv].
+    unfold bind at 1. pose proof (caps_maybe_default name (length idx) s Hinv) as H1.
+    destruct (maybe_create_default_array name (length idx) s) as [[u|e l|p| |] s1];
+      cbn [snd] in H1; try exact H1.
+    rewrite bind_get. destruct (alist_get name (arrays s1)) as [a|] eqn:Ea; [|exact H1].
+    destruct (Bool.eqb (ar_str a) match v with VStr _ => true | VNum _ => false end) eqn:Eb;
+      cbn [negb]; [|exact H1].
+    unfold bind, lift_res. destruct (array_linear_index a idx) as [i|e l|p| |]; try exact H1.
+    destruct (Nat.ltb (N.to_nat i) (length (ar_cells a))); [|exact H1].
+    cbn [modify snd]. apply caps_set_arrays; [exact H1|].
+    apply arrays_ok_set; [apply H1|].
+    apply alist_get_In in Ea. destruct H1 as (_ & _ & _ & _ & _ & Har).
+    destruct (Har _ _ Ea) as (Hd & Hlen & Hcap & Hstr & Hcells).
+    unfold arr_ok; cbn [ar_dims ar_cells ar_str]. rewrite list_update_length.
+    split; [exact Hd|]. split; [exact Hlen|]. split; [exact Hcap|]. split; [exact Hstr|].
+    apply list_update_Forall; [exact Hcells|].
+    apply Bool.eqb_prop in Eb. destruct v; exact Eb.
+  Qed.
+
+  Lemma caps_warn m : mrel INV (warn m).
+  Proof.
+    unfold warn; cwalk ltac:(first [ lazymatch goal with
+                               | |- mrel _ (push_output _) => apply caps_push_output end
+                             | leaf5 ]).
+  Qed.
+
+  Lemma caps_maybe_warn n : mrel INV (maybe_warn_undeclared_array n).
+  Proof.
+    unfold maybe_warn_undeclared_array; cwalk ltac:(first [ lazymatch goal with
+                               | |- mrel _ (warn _) => apply caps_warn end
+                             | leaf5 ]).
+  Qed.
+
+  Lemma caps_next_data : mrel INV next_data_element.
+  Proof.
+    intros s Hinv; unfold next_data_element.
+    destruct (data_it s) as [d|].
+    - destruct (data_next _ d); cbn [snd]. eapply caps_inv_ext; [..|exact Hinv]; reflexivity.
+    - destruct (data_chunks (st_keys s) (st_toks s)); try exact Hinv.
+      destruct (data_next _ _); cbn [snd]. eapply caps_inv_ext; [..|exact Hinv]; reflexivity.
+  Qed.
+
+  Ltac leaf6 :=
+    first [ lazymatch goal with
+            | |- mrel _ program_break_at_current_location => apply caps_program_break
+            | |- mrel _ continue_from_breakpoint => apply caps_continue_bp
+            | |- mrel _ reset_runtime_state => apply caps_reset_runtime
+            | |- mrel _ run_from_first_numbered_line => apply caps_run_from_first
+            | |- mrel _ (goto_line_number _) => apply caps_goto
+            | |- mrel _ (define_function _ _) => apply caps_define_function
+            | |- mrel _ (find_variable_value_in_stack _) => apply caps_find_var
+            | |- mrel _ next_line => apply caps_next_line
+            | |- mrel _ (set_numbered_line _ _) => apply caps_set_numbered_line
+            | |- mrel _ (rng_rnd _) => apply caps_rng_rnd
+            | |- mrel _ (push_output _) => apply caps_push_output
+            | |- mrel _ (gosub_line_number _) => apply caps_gosub
+            | |- mrel _ return_to_last_gosub => apply caps_return
+            | |- mrel _ (push_function_call _ _) => apply caps_push_fn; assumption
+            | |- mrel _ pop_function_call => apply caps_pop_fn
+            | |- mrel _ (arrays_create _ _) => apply caps_arrays_create
+            | |- mrel _ (maybe_create_default_array _ _) => apply caps_maybe_default
+            | |- mrel _ (arrays_get _ _) => apply caps_arrays_get
+            | |- mrel _ (arrays_set _ _ _) => apply caps_arrays_set
+            | |- mrel _ (warn _) => apply caps_warn
+            | |- mrel _ (maybe_warn_undeclared_array _) => apply caps_maybe_warn
+            | |- mrel _ next_data_element => apply caps_next_data
+            end
+          | leaf5 ].
+
+  (* ---- operators ---- *)
+  Lemma caps_eval_unary o v : mrel INV (eval_unary o v). Proof. uwalk leaf6. Qed.
+  Lemma caps_eval_addsub o a b : mrel INV (eval_addsub o a b). Proof. uwalk leaf6. Qed.
+  Lemma caps_eval_muldiv o a b : mrel INV (eval_muldiv o a b). Proof. uwalk leaf6. Qed.
+  Lemma caps_eval_eq o a b : mrel INV (eval_eq o a b). Proof. uwalk leaf6. Qed.
+  Lemma caps_eval_and a b : mrel INV (eval_and a b). Proof. uwalk leaf6. Qed.
+  Lemma caps_eval_or a b : mrel INV (eval_or a b). Proof. uwalk leaf6. Qed.
+  Lemma caps_eval_pow a b : mrel INV (eval_pow a b). Proof. uwalk leaf6. Qed.
+  Lemma caps_expect_number v : mrel INV (expect_number v). Proof. uwalk leaf6. Qed.
+
+  Ltac leaf7 :=
+    first [ lazymatch goal with
+            | |- mrel _ (eval_unary _ _) => apply caps_eval_unary
+            | |- mrel _ (eval_addsub _ _ _) => apply caps_eval_addsub
+            | |- mrel _ (eval_muldiv _ _ _) => apply caps_eval_muldiv
+            | |- mrel _ (eval_eq _ _ _) => apply caps_eval_eq
+            | |- mrel _ (eval_and _ _) => apply caps_eval_and
+            | |- mrel _ (eval_or _ _) => apply caps_eval_or
+            | |- mrel _ (eval_pow _ _) => apply caps_eval_pow
+            | |- mrel _ (expect_number _) => apply caps_expect_number
+            end
+          | leaf6 ].
+
+  (* ---- expressions ---- *)
+  Section Expr.
+    Variable fuel : nat.
+    Variable rec : M value.
+    Hypothesis Hrec : mrel INV rec.
+
+    Lemma caps_bind_arguments args i n b : mrel INV (bind_arguments rec args i n b).
+    Proof.
+      revert i b; induction args as [|a args IH]; intros i b; cbn [bind_arguments]; cwalk leaf7.
+      apply IH.
+    Qed.
+
+    (* every binding a call frame receives was checked against its parameter name *)
+    Lemma bind_arguments_typed args : forall i n b,
+      typed_alist b -> mpost typed_alist (bind_arguments rec args i n b).
+    Proof.
+      induction args as [|a args IH]; intros i n b Hb; cbn [bind_arguments].
+      - apply mpost_ret; exact Hb.
+      - apply mpost_bind; intros v. destruct (type_matches a v) eqn:E.
+        + apply mpost_bind; intros _. apply mpost_bind; intros _.
+          apply IH. apply typed_alist_set; assumption.
+        + apply mpost_fail_bind.
+    Qed.
+
+    Lemma caps_call_body : mrel INV (call_body rec).
+    Proof.
+      intros s. unfold call_body. pose proof (Hrec s) as H1.
+      destruct (rec s) as [[v|e l|p| |] s1]; cbn [snd] in *; try exact H1.
+      - pose proof (caps_pop_fn s1) as H2.
+        destruct (pop_function_call s1) as [[u|e l|p| |] s2]; cbn [snd] in *;
+          unfold inv_rel in *; auto.
+      - pose proof (caps_pop_fn s1) as H2.
+        destruct (pop_function_call s1) as [[u|e2 l2|p| |] s2]; cbn [snd] in *;
+          unfold inv_rel in *; auto.
+    Qed.
+
+    Ltac leafE :=
+      first [ lazymatch goal with
+              | |- mrel _ rec => exact Hrec
+              | |- mrel _ (bind_arguments _ _ _ _ _) => apply caps_bind_arguments
+              | |- mrel _ (call_body _) => apply caps_call_body
+              end
+            | leaf7 ].
+
+    Lemma caps_array_index : mrel INV (evaluate_array_index fuel rec).
+    Proof. uwalk leafE. Qed.
+
+    Lemma caps_unary_arg : mrel INV (unary_number_function_arg rec).
+    Proof. uwalk leafE. Qed.
+
+    Lemma caps_user_function_call name : mrel INV (user_function_call rec name).
+    Proof.
+      unfold user_function_call.
+      apply (mrel_bind _ PO); [apply (mrel_get _ PO)|intros fs].
+      destruct (alist_get name fs) as [d|]; [|apply (mrel_ret _ PO)].
+      apply (mrel_bind _ PO); [apply caps_expect|intros _].
+      apply (mrel_bind_post _ PO typed_alist);
+        [apply caps_bind_arguments | apply bind_arguments_typed; apply typed_alist_nil | intros b Hb].
+      cwalk leafE.
+    Qed.
+
+    Lemma caps_function_call name : mrel INV (function_call rec name).
+    Proof.
+      unfold function_call.
+      cwalk ltac:(first [ lazymatch goal with
+                          | |- mrel _ (unary_number_function_arg _) => apply caps_unary_arg
+                          | |- mrel _ (user_function_call _ _) => apply caps_user_function_call
+                          end
+                        | leafE ]).
+    Qed.
+
+    Lemma caps_expression_term : mrel INV (expression_term fuel rec).
+    Proof.
+      unfold expression_term.
+      cwalk ltac:(first [ lazymatch goal with
+                          | |- mrel _ (function_call _ _) => apply caps_function_call
+                          | |- mrel _ (evaluate_array_index _ _) => apply caps_array_index
+                          end
+                        | leafE ]).
+    Qed.
+
+    Lemma caps_unary : mrel INV (unary_operator fuel rec).
+    Proof.
+      unfold unary_operator, parenthesized_expression.
+      cwalk ltac:(first [ lazymatch goal with
+                          | |- mrel _ (expression_term _ _) => apply caps_expression_term end
+                        | leafE ]).
+    Qed.
+
+    Lemma caps_tier {O} (g : M (option O)) (operand : M value) (ap : O -> value -> value -> M value) :
+      mrel INV g -> mrel INV operand -> (forall o a b, mrel INV (ap o a b)) ->
+      mrel INV (tier fuel g operand ap).
+    Proof. intros Hg Ho Ha. unfold tier; cwalk leafE; auto. Qed.
+
+    Lemma caps_accept_as {O} t (o : O) : mrel INV (accept_as t o).
+    Proof. unfold accept_as; cwalk leafE. Qed.
+
+    Lemma caps_logical_or : mrel INV (logical_or_expression fuel rec).
+    Proof.
+      unfold logical_or_expression, logical_and_expression, equality_expression,
+        plus_or_minus_expression, multiply_or_divide_expression, exponent_expression.
+      repeat (apply caps_tier;
+              [ first [apply caps_accept_as | apply caps_try] | | intros; leaf7 ]).
+      apply caps_unary.
+    Qed.
+  End Expr.
+
+  Theorem caps_evaluate_expression fuel : forall n, mrel INV (evaluate_expression fuel n).
+  Proof.
+    induction fuel as [|k IH]; intros n; cbn [evaluate_expression].
+    - apply (mrel_out_of_fuel _ PO).
+    - destruct (Nat.eqb n max_nesting); [apply (mrel_fail _ PO)|].
+      apply caps_logical_or; apply IH.
+  Qed.
+
+  (* ---- statements ---- *)
+  Section Stmt.
+    Variable fuel : nat.
+    Variable nest : nat.
+    Variable rec : M unit.
+    Hypothesis Hrec : mrel INV rec.
+
+    Ltac leafS :=
+      first [ lazymatch goal with
+              | |- mrel _ rec => exact Hrec
+              | |- mrel _ (expr _ _) => apply caps_evaluate_expression
+              | |- mrel _ (evaluate_expression _ _) => apply caps_evaluate_expression
+              | |- mrel _ (evaluate_array_index _ _) =>
+                  apply caps_array_index; apply caps_evaluate_expression
+              end
+            | leaf7 ].
+
+    Lemma caps_optional_index : mrel INV (parse_optional_array_index fuel nest).
+    Proof. uwalk leafS. Qed.
+
+    Lemma caps_parse_lvalue : mrel INV (parse_lvalue fuel nest).
+    Proof.
+      unfold parse_lvalue.
+      cwalk ltac:(first [ lazymatch goal with
+                          | |- mrel _ (parse_optional_array_index _ _) => apply caps_optional_index end
+                        | leafS ]).
+    Qed.
+
+    Lemma caps_assign lv v : mrel INV (assign_value lv v).
+    Proof. uwalk leafS. Qed.
+
+    Lemma caps_await : mrel INV rewind_program_and_await_input.
+    Proof. uwalk leafS. Qed.
+
+    Lemma caps_break : mrel INV break_at_current_location.
+    Proof. uwalk leafS. Qed.
+
+    Lemma caps_goto_stmt : mrel INV evaluate_goto_statement.
+    Proof. uwalk leafS. Qed.
+
+    Lemma caps_gosub_stmt : mrel INV evaluate_gosub_statement.
+    Proof. uwalk leafS. Qed.
+
+    Ltac leafS2 :=
+      first [ lazymatch goal with
+              | |- mrel _ (parse_optional_array_index _ _) => apply caps_optional_index
+              | |- mrel _ (parse_lvalue _ _) => apply caps_parse_lvalue
+              | |- mrel _ (assign_value _ _) => apply caps_assign
+              | |- mrel _ rewind_program_and_await_input => apply caps_await
+              | |- mrel _ break_at_current_location => apply caps_break
+              | |- mrel _ evaluate_goto_statement => apply caps_goto_stmt
+              | |- mrel _ evaluate_gosub_statement => apply caps_gosub_stmt
+              end
+            | leafS ].
+
+    Lemma caps_stmt_or_goto : mrel INV (statement_or_goto_line_number rec).
+    Proof. uwalk leafS2. Qed.
+
+    Lemma caps_if : mrel INV (evaluate_if_statement fuel nest rec).
+    Proof.
+      unfold evaluate_if_statement.
+      cwalk ltac:(first [ lazymatch goal with
+                          | |- mrel _ (statement_or_goto_line_number _) => apply caps_stmt_or_goto end
+                        | leafS2 ]).
+    Qed.
+
+    Lemma caps_assignment sym : mrel INV (evaluate_assignment_statement fuel nest sym).
+    Proof. uwalk leafS2. Qed.
+
+    Lemma caps_let : mrel INV (evaluate_let_statement fuel nest).
+    Proof.
+      unfold evaluate_let_statement.
+      cwalk ltac:(first [ lazymatch goal with
+                          | |- mrel _ (evaluate_assignment_statement _ _ _) => apply caps_assignment end
+                        | leafS2 ]).
+    Qed.
+
+    Lemma caps_read : mrel INV (evaluate_read_statement fuel nest).
+    Proof. uwalk leafS2. Qed.
+
+    Lemma caps_take_input : mrel INV take_input.
+    Proof. uwalk leafS2. Qed.
+
+    Lemma caps_input : mrel INV (evaluate_input_statement fuel nest).
+    Proof.
+      unfold evaluate_input_statement.
+      cwalk ltac:(first [ lazymatch goal with
+                          | |- mrel _ take_input => apply caps_take_input
+                          | |- mrel _ (fun s => (Err _ _, s)) => intros ?s0; exact (fun H => H)
+                          end
+                        | leafS2 ]).
+    Qed.
+
+    Lemma caps_dim : mrel INV (evaluate_dim_statement fuel nest).
+    Proof. uwalk leafS2. Qed.
+
+    Lemma caps_print : mrel INV (evaluate_print_statement fuel nest).
+    Proof. uwalk leafS2. Qed.
+
+    Lemma caps_for : mrel INV (evaluate_for_statement fuel nest).
+    Proof. uwalk leafS2. Qed.
+
+    Lemma caps_next_stmt : mrel INV evaluate_next_statement.
+    Proof. uwalk leafS2. Qed.
+
+    Lemma caps_def : mrel INV (evaluate_def_statement fuel).
+    Proof. uwalk leafS2. Qed.
+
+    Lemma caps_is_else : mrel INV is_else_of_then_clause.
+    Proof. uwalk leafS2. Qed.
+
+    Lemma caps_statement_body : mrel INV (evaluate_statement_body fuel nest rec).
+    Proof.
+      unfold evaluate_statement_body.
+      cwalk ltac:(first [ lazymatch goal with
+                          | |- mrel _ (evaluate_dim_statement _ _) => apply caps_dim
+                          | |- mrel _ (evaluate_print_statement _ _) => apply caps_print
+                          | |- mrel _ (evaluate_input_statement _ _) => apply caps_input
+                          | |- mrel _ (evaluate_if_statement _ _ _) => apply caps_if
+                          | |- mrel _ (evaluate_for_statement _ _) => apply caps_for
+                          | |- mrel _ evaluate_next_statement => apply caps_next_stmt
+                          | |- mrel _ (evaluate_def_statement _) => apply caps_def
+                          | |- mrel _ (evaluate_read_statement _ _) => apply caps_read
+                          | |- mrel _ (evaluate_let_statement _ _) => apply caps_let
+                          | |- mrel _ (evaluate_assignment_statement _ _ _) => apply caps_assignment
+                          | |- mrel _ is_else_of_then_clause => apply caps_is_else
+                          end
+                        | leafS2 ]).
+    Qed.
+  End Stmt.
+
+  Theorem caps_evaluate_statement fuel : forall n, mrel INV (evaluate_statement fuel n).
+  Proof.
+    induction fuel as [|k IH]; intros n; cbn [evaluate_statement].
+    - apply (mrel_out_of_fuel _ PO).
+    - destruct (Nat.eqb n max_nesting); [apply (mrel_fail _ PO)|].
+      apply caps_statement_body; apply IH.
+  Qed.
+
+  (* ---- the host API ---- *)
+
+  Ltac leafI :=
+    first [ lazymatch goal with
+            | |- mrel _ (evaluate_statement _ _) => apply caps_evaluate_statement
+            | |- mrel _ return_to_idle_state => caps_modify
+            end
+          | leaf7 ].
+
+  Theorem caps_run_next_statement fuel : mrel INV (run_next_statement fuel).
+  Proof. uwalk leafI. Qed.
+
+  Lemma caps_process_command fuel c : mrel INV (process_command fuel c).
+  Proof.
+    unfold process_command.
+    cwalk ltac:(first [ lazymatch goal with
+                        | |- mrel _ (run_next_statement _) => apply caps_run_next_statement
+                        | |- mrel _ (fun s => (list_lines _ _, s)) => intros ?s0; exact (fun H => H)
+                        end
+                      | leafI ]).
+  Qed.
+
+  Lemma caps_evaluate_impl fuel line : mrel INV (evaluate_impl fuel line).
+  Proof.
+    unfold evaluate_impl.
+    cwalk ltac:(first [ lazymatch goal with
+                        | |- mrel _ (run_next_statement _) => apply caps_run_next_statement
+                        | |- mrel _ (process_command _ _) => apply caps_process_command
+                        end
+                      | leafI ]).
+  Qed.
+
+  Lemma caps_postprocess {A} (r : res A * interp) :
+    caps_inv (snd r) -> caps_inv (snd (postprocess r)).
+  Proof.
+    destruct r as [[a|e l|p| |] s]; cbn [postprocess snd]; intros H; try exact H.
+  Qed.
+
+  Lemma caps_start_evaluating fuel line : mrel INV (start_evaluating fuel line).
+  Proof.
+    intros s Hinv. unfold start_evaluating. apply caps_postprocess.
+    apply caps_evaluate_impl; exact Hinv.
+  Qed.
+
+  Lemma caps_continue_evaluating fuel : mrel INV (continue_evaluating fuel).
+  Proof.
+    intros s Hinv. unfold continue_evaluating. destruct (state s); try exact Hinv.
+    apply caps_postprocess. apply caps_run_next_statement; exact Hinv.
+  Qed.
+
+  Lemma caps_provide_input text : mrel INV (provide_input text).
+  Proof.
+    intros s Hinv. unfold provide_input. destruct (state s); exact Hinv.
+  Qed.
+
+  Lemma caps_host_break : mrel INV host_break.
+  Proof. apply caps_break. Qed.
+
+  Lemma caps_randomize seed : mrel INV (randomize seed).
+  Proof. unfold randomize. caps_modify. Qed.
+
+  Lemma caps_make_row r line s : caps_inv s -> caps_inv (snd (make_row r line s)).
+  Proof.
+    intros H. unfold make_row, take_outputs. cbn [snd].
+    eapply caps_inv_ext; [..|exact H]; reflexivity.
+  Qed.
+End Preservation.
+
+(* ------------------------------------------------------------------ *)
+(* Host operations and histories *)
+
+Lemma caps_run_then_row {r : res unit * interp} line :
+  caps_inv (snd r) ->
+  caps_inv (snd (let '(r0, s1) := r in let '(rw, s2) := make_row r0 line s1 in (Some rw, s2))).
+Proof.
+  destruct r as [r0 s1]. cbn [snd]. intros H.
+  pose proof (caps_make_row r0 line s1 H) as H2.
+  destruct (make_row r0 line s1) as [rw s2]. exact H2.
+Qed.
+
+(* every host operation, legal or not, keeps the invariant *)
+Theorem caps_step : forall fuel s op, caps_inv s -> caps_inv (snd (step fuel s op)).
+Proof.
+  intros fuel s op Hinv. unfold step.
+  destruct (negb (legal s op)); [exact Hinv|].
+  assert (H0 : caps_inv (set_reads 0 s)) by (eapply caps_inv_ext; [..|exact Hinv]; reflexivity).
+  destruct op as [text| |text| |seed| |w t|].
+  - apply caps_run_then_row. apply caps_start_evaluating; exact H0.
+  - apply caps_run_then_row. apply caps_continue_evaluating; exact H0.
+  - apply caps_run_then_row. apply caps_provide_input; exact H0.
+  - apply caps_run_then_row. apply caps_host_break; exact H0.
+  - apply caps_run_then_row. apply caps_randomize; exact H0.
+  - pose proof (caps_make_row (Ok tt) None _ (caps_fresh (pow_oracle s))) as H2.
+    destruct (make_row (Ok tt) None (fresh (pow_oracle s))) as [rw s2]. exact H2.
+  - cbn [snd]. eapply caps_inv_ext; [..|exact Hinv]; reflexivity.
+  - cbn [snd]. apply caps_fresh.
+Qed.
+
+Theorem caps_reachable : forall fuel ops s, caps_inv s -> caps_inv (run_state fuel s ops).
+Proof.
+  intros fuel ops; induction ops as [|op ops IH]; intros s Hinv; cbn [run_state]; [exact Hinv|].
+  apply IH. apply caps_step; exact Hinv.
+Qed.
+
+Corollary caps_session : forall fuel oracle ops, caps_inv (run_state fuel (fresh oracle) ops).
+Proof. intros. apply caps_reachable, caps_fresh. Qed.
+
+(* the invariant in the numbers of the table; the English statement of C16
+   quotes 32 / 10000 / 10, so this is re-decided whenever Gen/Tables.v changes *)
+Example caps_constants :
+  STACK_LIMIT = 32%N /\ MAX_DIM_TOTAL_ELEMENTS = 10000%N /\ DEFAULT_ARRAY_SIZE = 10%N.
+Proof. vm_compute. repeat split. Qed.
+
+Corollary caps_numeric s : caps_inv s ->
+  (N.of_nat (length (stack s)) <= STACK_LIMIT)%N
+  /\ (N.of_nat (length (loops s)) <= STACK_LIMIT)%N
+  /\ (forall name a, In (name, a) (arrays s) ->
+        N.of_nat (length (ar_cells a)) = dims_product (ar_dims a)
+        /\ (N.of_nat (length (ar_cells a)) <= MAX_DIM_TOTAL_ELEMENTS)%N).
+Proof.
+  intros (Hst & Hlp & _ & _ & _ & Har). unfold stack_limit in *.
+  split; [lia|]. split; [lia|]. intros name a Hin.
+  destruct (Har _ _ Hin) as (_ & Hlen & Hcap & _). split; assumption.
+Qed.
+
+(* with distinct loop variables, at most one open loop per variable of the program *)
+Corollary loops_bounded_by_variables s univ :
+  caps_inv s -> incl (map lp_sym (loops s)) univ -> length (loops s) <= length univ.
+Proof.
+  intros (_ & _ & Hnd & _) Hincl. rewrite <- (map_length lp_sym).
+  apply NoDup_incl_length; assumption.
+Qed.
+
+(* ------------------------------------------------------------------ *)
+(* Item 4: the cap errors, exactly *)
+
+Theorem gosub_overflow n s :
+  length (stack s) = stack_limit -> gosub_line_number n s = (Err EStackOverflow None, s).
+Proof. intros H. unfold gosub_line_number. rewrite bind_get, H, Nat.eqb_refl. reflexivity. Qed.
+
+(* ... and only then: below the cap GOSUB pushes exactly one frame or reports
+   the missing line *)
+Theorem gosub_below_cap n s :
+  length (stack s) <> stack_limit ->
+  gosub_line_number n s =
+  if store_has n s
+  then (Ok tt, set_stack (stack s ++ [mkframe (loc s) []])
+                 (set_loc (mkloc (Some n) 0) (set_breakpoint None s)))
+  else (Err EUndefinedStatement None, set_breakpoint None s).
+Proof.
+  intros H. apply Nat.eqb_neq in H. unfold gosub_line_number. rewrite bind_get, H, bind_get.
+  unfold bind. rewrite goto_eq. destruct (store_has n s); reflexivity.
+Qed.
+
+Theorem push_function_call_overflow name b s :
+  length (stack s) = stack_limit -> push_function_call name b s = (Err EStackOverflow None, s).
+Proof. intros H. unfold push_function_call. rewrite bind_get, H, Nat.eqb_refl. reflexivity. Qed.
+
+Theorem push_function_call_below_cap name b s :
+  length (stack s) <> stack_limit ->
+  stack (snd (push_function_call name b s)) = stack s ++ [mkframe (loc s) b]
+  /\ fst (push_function_call name b s) <> Err EStackOverflow None.
+Proof.
+  intros H. apply Nat.eqb_neq in H. unfold push_function_call.
+  rewrite bind_get, H, bind_get, bind_modify, bind_get.
+  destruct (alist_get name (functions (set_stack (stack s ++ [mkframe (loc s) b]) s)));
+    split; try reflexivity; discriminate.
+Qed.
+
+(* FOR: the loop for the same variable and everything above it are dropped
+   first; the error is raised exactly when [stack_limit] loops remain *)
+Theorem start_loop_overflow sym a b c s :
+  length (loops_below sym (loops s)) = stack_limit ->
+  start_loop sym a b c s = (Err EStackOverflow None, drop_loop sym s).
+Proof.
+  intros H. rewrite start_loop_eq. cbv zeta. rewrite drop_loop_loops, H, Nat.eqb_refl. reflexivity.
+Qed.
+
+Theorem start_loop_below_cap sym a b c s :
+  length (loops_below sym (loops s)) <> stack_limit ->
+  fst (start_loop sym a b c s) <> Err EStackOverflow None
+  /\ loops (snd (start_loop sym a b c s)) = loops_below sym (loops s) ++ [mkloop (loc s) sym b c].
+Proof.
+  intros H. apply Nat.eqb_neq in H. rewrite start_loop_eq. cbv zeta.
+  rewrite drop_loop_loops, H, variables_set_eq.
+  assert (Hloc : loc (drop_loop sym s) = loc s).
+  { unfold drop_loop. destruct (find_loop_rev sym (loops s)); reflexivity. }
+  rewrite Hloc. destruct (type_matches sym (VNum a)); split; try reflexivity; discriminate.
+Qed.
+
+(* Arrays: see [array_create_value_spec] above; here lifted to DIM *)
+Theorem arrays_create_too_large name idx s :
+  idx <> [] -> alist_has name (arrays s) = false ->
+  (MAX_DIM_TOTAL_ELEMENTS < dims_product (dim_sizes idx))%N ->
+  arrays_create name idx s = (Err EArrayTooLarge None, s).
+Proof.
+  intros Hne Hhas Hbig. unfold arrays_create. rewrite bind_get, Hhas.
+  pose proof (array_create_value_spec name idx Hne) as H.
+  apply N.ltb_lt in Hbig. rewrite Hbig in H. unfold bind, lift_res. rewrite H. reflexivity.
+Qed.
+
+Theorem arrays_create_fits name idx s :
+  idx <> [] -> alist_has name (arrays s) = false ->
+  (dims_product (dim_sizes idx) <= MAX_DIM_TOTAL_ELEMENTS)%N ->
+  exists a, arrays_create name idx s = (Ok tt, set_arrays (alist_set name a (arrays s)) s)
+            /\ arr_ok name a /\ ar_dims a = dim_sizes idx.
+Proof.
+  intros Hne Hhas Hfit. unfold arrays_create. rewrite bind_get, Hhas.
+  pose proof (array_create_value_spec name idx Hne) as H.
+  apply N.ltb_ge in Hfit. rewrite Hfit in H. destruct H as (a & Ha & Hok & Hd).
+  exists a. unfold bind, lift_res. rewrite Ha. auto.
+Qed.
+
+(* ------------------------------------------------------------------ *)
+(* Item 5: FOR does not accumulate loops *)
+
+Definition bytes_eq_dec : forall a b : bytes, {a = b} + {a <> b} := list_eq_dec N.eq_dec.
+
+Theorem start_loop_no_accumulation sym a b c s s' :
+  NoDup (map lp_sym (loops s)) ->
+  start_loop sym a b c s = (Ok tt, s') ->
+  count_occ bytes_eq_dec (map lp_sym (loops s')) sym = 1
+  /\ length (loops s') <= S (length (loops s))
+  /\ (In sym (map lp_sym (loops s)) -> length (loops s') <= length (loops s)).
+Proof.
+  intros Hnd. rewrite start_loop_eq. cbv zeta.
+  destruct (Nat.eqb (length (loops (drop_loop sym s))) stack_limit); [discriminate|].
+  rewrite variables_set_eq. destruct (type_matches sym (VNum a)); [|discriminate].
+  intros E; inversion E; subst s'; clear E. caps_fields. rewrite drop_loop_loops.
+  rewrite map_app, count_occ_app, app_length. cbn [map lp_sym length count_occ].
+  pose proof (loops_below_length sym (loops s)) as Hle.
+  split; [|split].
+  - rewrite (proj1 (count_occ_not_In bytes_eq_dec _ _) (loops_below_fresh sym _ Hnd)).
+    destruct (bytes_eq_dec sym sym); [reflexivity|congruence].
+  - lia.
+  - intros Hin. pose proof (loops_below_length_lt sym (loops s) Hin). lia.
+Qed.
+
+(* whatever the outcome, FOR grows the loop list by at most one, and not at all
+   when the variable already had a loop (re-entering a FOR via GOTO) *)
+Theorem start_loop_growth sym a b c s :
+  let s' := snd (start_loop sym a b c s) in
+  length (loops s') <= S (length (loops s))
+  /\ (In sym (map lp_sym (loops s)) -> length (loops s') <= length (loops s)).
+Proof.
+  cbv zeta. rewrite start_loop_eq. cbv zeta.
+  pose proof (loops_below_length sym (loops s)) as Hle.
+  destruct (Nat.eqb (length (loops (drop_loop sym s))) stack_limit).
+  - cbn [snd]. rewrite drop_loop_loops. split; [lia|intros _; lia].
+  - rewrite variables_set_eq. destruct (type_matches sym (VNum a)); cbn [snd]; caps_fields;
+      rewrite drop_loop_loops, app_length; cbn [length];
+      (split; [lia|intros Hin; pose proof (loops_below_length_lt sym (loops s) Hin); lia]).
+Qed.
+
+(* ------------------------------------------------------------------ *)
+(* Non-vacuity: concrete sessions *)
+
+Definition last_msg (ops : list hostop) : option bytes :=
+  option_map r_msg (last (run_ops default_fuel (fresh []) ops) None).
+
+(* two nested FOR loops and a GOSUB in flight, one string variable, one 3x4 array *)
+Definition demo_ops : list hostop :=
+  [ HLine (bs "10 FOR I = 1 TO 3"); HLine (bs "20 FOR J = 1 TO 2"); HLine (bs "30 GOSUB 100");
+    HLine (bs "40 NEXT J"); HLine (bs "50 NEXT I"); HLine (bs "60 END");
+    HLine (bs "100 A$ = ""X"""); HLine (bs "110 DIM B(2,3)"); HLine (bs "120 RETURN");
+    HLine (bs "RUN"); HCont; HCont; HCont; HCont ].
+
+Example demo_state :
+  let s := run_state default_fuel (fresh []) demo_ops in
+  length (stack s) = 1 /\ length (loops s) = 2 /\ state s = Running
+  /\ map fst (variables s) = [bs "I"; bs "J"; bs "A$"]
+  /\ map (fun p => (fst p, ar_dims (snd p), length (ar_cells (snd p)))) (arrays s)
+     = [(bs "B", [3%N; 4%N], 12)].
+Proof. vm_compute. repeat split. Qed.
+
+(* unbounded GOSUB recursion: the 33rd frame is refused, 32 remain, the
+   interpreter is Idle and takes the next line *)
+Definition gosub_ops : list hostop :=
+  [ HLine (bs "10 GOSUB 10"); HLine (bs "RUN") ] ++ repeat HCont 32.
+
+Example gosub_cap :
+  let s := run_state default_fuel (fresh []) gosub_ops in
+  length (stack s) = 32 /\ state s = Idle
+  /\ last_msg gosub_ops = Some (bs "OUT OF MEMORY ERROR (STACK OVERFLOW) IN 10")
+  /\ last_msg (gosub_ops ++ [HLine (bs "PRINT 1")]) = Some [].
+Proof. vm_compute. repeat split. Qed.
+
+(* re-entering a FOR through GOTO a hundred times leaves one loop *)
+Definition for_ops : list hostop :=
+  [ HLine (bs "10 FOR I = 1 TO 3"); HLine (bs "20 GOTO 10"); HLine (bs "RUN") ] ++ repeat HCont 201.
+
+Example for_reentry :
+  let s := run_state default_fuel (fresh []) for_ops in
+  length (loops s) = 1 /\ state s = Running.
+Proof. vm_compute. repeat split. Qed.
+
+(* 101 x 101 cells are refused, 100 x 100 are granted *)
+Example dim_cap :
+  last_msg [HLine (bs "DIM A(100,100)")] = Some (bs "OUT OF MEMORY ERROR (ARRAY TOO LARGE)")
+  /\ let s := run_state default_fuel (fresh []) [HLine (bs "DIM B$(99,99)"); HLine (bs "B$(99,99) = ""Z""")] in
+     map (fun p => (fst p, ar_dims (snd p), length (ar_cells (snd p)))) (arrays s)
+     = [(bs "B$", [100%N; 100%N], 10000)]
+     /\ state s = Idle.
+Proof. vm_compute. repeat split. Qed.
+
+(* ------------------------------------------------------------------ *)
+Print Assumptions caps_init.
+Print Assumptions caps_fresh.
+Print Assumptions caps_evaluate_expression.
+Print Assumptions caps_evaluate_statement.
+Print Assumptions caps_run_next_statement.
+Print Assumptions caps_step.
+Print Assumptions caps_reachable.
+Print Assumptions array_create_value_spec.
+Print Assumptions gosub_overflow.
+Print Assumptions gosub_below_cap.
+Print Assumptions push_function_call_overflow.
+Print Assumptions push_function_call_below_cap.
+Print Assumptions start_loop_overflow.
+Print Assumptions start_loop_below_cap.
+Print Assumptions arrays_create_too_large.
+Print Assumptions arrays_create_fits.
+Print Assumptions start_loop_no_accumulation.
+Print Assumptions start_loop_growth.
+Print Assumptions loops_bounded_by_variables.
